@@ -10,6 +10,7 @@ import (
 	"path/filepath"
 	"runtime"
 	"strings"
+	"sync"
 
 	"github.com/dominikbraun/graph"
 	task "github.com/go-task/task/v3"
@@ -69,7 +70,7 @@ type Scenario struct {
 }
 
 type Probe struct {
-	mu    int
+	mu    sync.Mutex // only used in free mode (real goroutines)
 	Trace []Event
 	Raw   []string
 }
@@ -86,6 +87,13 @@ func (p *Probe) Write(b []byte) (int, error) {
 	}
 	s := strings.TrimRight(string(b), "\n")
 	if strings.TrimSpace(s) == "" {
+		return len(b), nil
+	}
+	if !vsched.Active() {
+		// free mode: real goroutines write concurrently
+		p.mu.Lock()
+		p.Trace = append(p.Trace, Event{'S', s, 0}, Event{'F', s, 0})
+		p.mu.Unlock()
 		return len(b), nil
 	}
 	tid := 0
@@ -109,11 +117,18 @@ func (p *Probe) Write(b []byte) (int, error) {
 
 // RawWriter records every underlying write as one event and yields around it (C17).
 type RawWriter struct {
+	mu     sync.Mutex
 	Writes []string
 }
 
 func (w *RawWriter) Write(b []byte) (int, error) {
 	if vsched.Aborting() {
+		return len(b), nil
+	}
+	if !vsched.Active() {
+		w.mu.Lock()
+		w.Writes = append(w.Writes, string(b))
+		w.mu.Unlock()
 		return len(b), nil
 	}
 	vsched.Yield("raw.write")
